@@ -9,6 +9,7 @@ from rdkit import Chem
 from rdkit.Chem import AllChem
 
 from harness import vlib
+from harness.fpgen import attempt
 
 vlib.setup_env()
 
@@ -70,7 +71,7 @@ def make_gen(o, get_values=True):
 class C13(vlib.Check):
     id = "C13"
     props_modules = ["E3fpVerif.Props.C13"]
-    gen_items = ["defaults"]
+    gen_items = ["defaults", "decisions"]
     rule = ("15 small drug-like molecules (from SMILES; with explicit hydrogens and a stored conformer; four hydrogen-free molecules) x seeded options (num_conf 3-12, first, pool_multiplier 1-2, RMSD cutoff in {-1, 0.2, 0.5, 1.0}, "
             "energy window in {None, 0.5, 5}, three force fields, fixed seeds): the pool energies and every RMSD the real loop asked for "
             "are recorded and fed to the model of filter_conformers; the returned molecule is re-measured independently (pairwise "
@@ -129,7 +130,39 @@ class C13(vlib.Check):
             yield {"t": "reuse", "smiles": smis, "opts": {"num_conf": nc, "first": rng.choice([-1, 2]), "pool_multiplier": 1,
                                                           "rmsd_cutoff": 0.5, "max_energy_diff": None, "forcefield": ff, "seed": 5}}
 
+        # the generator object's own bookkeeping over a history of molecules (Model/Conformer CGen): automatic / fixed targets,
+        # `first`, pool multiplier; molecules of every rotatable-bond class; RDKit's embedding is asked for one conformer only
+        for k in range(12 if self.tier == "quick" else 200):
+            smis = []
+            for _ in range(rng.randint(2, 6)):
+                smis.append(rng.choice(["C" * rng.randint(2, 20), "CCOC(=O)C", "OCC(O)CO", "c1ccccc1", "CCN(CC)CC", "OC(=O)CCCCCCCCCCCN",
+                                        "CC(C)Cc1ccc(cc1)C(C)C(=O)O", "NCCCCCCCCN", "CCCCCCCCCCCCOCCOCCO"]))
+            self.count("generator-bookkeeping-history")
+            yield {"t": "genhist", "smiles": smis, "num_conf": rng.choice([-1, -1, 3, 10]), "first": rng.choice([-1, -1, 1, 5]), "pool": rng.choice([1, 2, 3])}
+
     # ------------------------------------------------------------------
+    def _genhist(self, case):
+        g = ConformerGenerator(num_conf=case["num_conf"], first=case["first"], pool_multiplier=case["pool"], seed=3)
+        orig = AllChem.EmbedMultipleConfs
+        asked = []
+
+        def embed(m, *a, **kw):
+            asked.append(int(kw.get("numConfs", a[0] if a else -1)))
+            kw["numConfs"] = 1
+            kw["maxAttempts"] = 5
+            return orig(m, **kw)
+        out, rots = [], []
+        AllChem.EmbedMultipleConfs = embed
+        try:
+            for smi in case["smiles"]:
+                mol = mol_from_smiles(smi, "m")
+                rots.append(int(AllChem.CalcNumRotatableBonds(Chem.AddHs(mol))))
+                g.embed_molecule(mol)
+                out.append([asked[-1], int(g.max_conformers), int(g.first_conformers)])
+        finally:
+            AllChem.EmbedMultipleConfs = orig
+        return out, rots
+
     def _input(self, case):
         """the input molecule: from SMILES (implicit hydrogens, no conformer), with hydrogens already explicit and one stored
         conformer (as read from an SDF with removeHs=False), or without any hydrogen at all"""
@@ -155,6 +188,8 @@ class C13(vlib.Check):
         return mol, out, vals, rec
 
     def impl(self, case):
+        if case["t"] == "genhist":
+            return attempt(lambda: self._genhist(case)[0])
         if case["t"] != "gen":
             return {"ok": "see prop"}
         try:
@@ -166,6 +201,8 @@ class C13(vlib.Check):
                        "rmsds": [[fr(x) for x in row] for row in np.asarray(rmsds)]}}
 
     def model_ops(self, case):
+        if case["t"] == "genhist":
+            return [{"op": "conf.gen_hist", "num_conf": case["num_conf"], "first": case["first"], "pool": case["pool"], "rots": self._genhist(case)[1]}]
         if case["t"] != "gen":
             return [{"op": "fpr.hash", "words": []}]
         try:
@@ -183,6 +220,8 @@ class C13(vlib.Check):
                  "cutoff": fr(o["rmsd_cutoff"]), "window": None if o["max_energy_diff"] is None else fr(o["max_energy_diff"])}]
 
     def model_answer(self, case, answers):
+        if case["t"] == "genhist":
+            return answers[0]
         if case["t"] != "gen":
             return {"ok": "see prop"}
         return answers[0]
@@ -202,7 +241,16 @@ class C13(vlib.Check):
 
     # ------------------------------------------------------------------ property
     def prop(self, case):
-        o = case["opts"]
+        o = case.get("opts")
+        if case["t"] == "genhist":
+            # each molecule of the history gets the targets a fresh generator resolves for it
+            out, rots = self._genhist(case)
+            for k, smi in enumerate(case["smiles"]):
+                fresh, _ = self._genhist(dict(case, smiles=[smi]))
+                if fresh[0] != out[k]:
+                    return {"key": "generator-history-dependent:targets", "what": "molecule %d (%s, %d rotatable bonds) of a history gets (pool, target, first) = %s, "
+                            "from a fresh generator %s" % (k, smi, rots[k], out[k], fresh[0])}
+            return None
         if case["t"] == "reuse":
             g = make_gen(o, get_values=False)
             for smi in case["smiles"]:
